@@ -1,7 +1,7 @@
 (* C11 -- Transmit regulation holds for every send pattern.  Statements only.
    RATE, CAPACITY, the frame-size formula, the gap and the token constants are regenerated from the source. *)
 From Coq Require Import ZArith List Bool Sorted.
-From RV Require Import GenConsts M_Regulate P_Regulate.
+From RV Require Import GenConsts M_Regulate P_Regulate M_RegulateK P_RegulateK.
 Import ListNotations.
 Open Scope Z_scope.
 
@@ -35,6 +35,40 @@ Theorem C11_mq_allowance : forall ts s, mq_ok s -> StronglySorted Z.le (m_ts s :
 Proof. exact mq_allowance. Qed.
 Theorem C11_mq_invariant : forall s t, mq_ok s -> m_ts s <= t -> mq_ok (fst (fst (mq_write s t))) /\ m_ts (fst (fst (mq_write s t))) = t.
 Proof. exact mq_write_ok. Qed.
+
+(* ---- concurrent callers: any interleaving of arrivals (top-up, decision) and writes (debit) of calls of which at most K are
+   pending at once; a write may be delayed for any time beyond the sleep its caller computed (semaphore, sync avoidance) ---- *)
+Definition MAXF : Z := frame_size 96.
+Lemma k_side : 0 <= RATE /\ 0 <= MAXF /\ MAXF <= CAPACITY.
+Proof. vm_compute. repeat split; discriminate. Qed.
+
+(* the level (as the next top-up would compute it) never falls below minus (K-1) frames: each of the K callers pending together
+   can overdraw by what the others debit after it looked, and by no more *)
+Theorem C11_concurrent_level_floor : forall K evs t0 s, 1 <= K -> Forall (small MAXF) evs ->
+  crun RATE CAPACITY K (cinit CAPACITY t0) evs = Some s -> - ((K - 1) * MAXF) <= vlevel RATE s.
+Proof. intros K evs t0 s HK. exact (level_floor RATE CAPACITY K MAXF (proj1 k_side) (proj1 (proj2 k_side)) (proj2 (proj2 k_side)) HK evs t0 s). Qed.
+
+(* any stretch `mid` of any run: the bits handed to the radio are at most rate x (time the stretch spans) + one full bucket
+   + one frame per call already pending when the stretch starts + (K-1) frames *)
+Theorem C11_duty_window_concurrent : forall K pre mid t0 s1 s2, 1 <= K -> Forall (small MAXF) (pre ++ mid) ->
+  crun RATE CAPACITY K (cinit CAPACITY t0) pre = Some s1 -> crun RATE CAPACITY K s1 mid = Some s2 ->
+  cbits RATE CAPACITY K s1 mid <= RATE * (c_now s2 - c_now s1) + CAPACITY + npend s1 * MAXF + (K - 1) * MAXF.
+Proof. intros K pre mid t0 s1 s2 HK. exact (window_concurrent RATE CAPACITY K MAXF (proj1 k_side) (proj1 (proj2 k_side)) (proj2 (proj2 k_side)) HK pre mid t0 s1 s2). Qed.
+
+(* ... with the time measured from the first event of the stretch, e.g. from one write to a later one *)
+Theorem C11_duty_window_concurrent_from : forall K pre e rest t0 s1 s2, 1 <= K -> Forall (small MAXF) (pre ++ e :: rest) ->
+  crun RATE CAPACITY K (cinit CAPACITY t0) pre = Some s1 -> crun RATE CAPACITY K s1 (e :: rest) = Some s2 ->
+  cbits RATE CAPACITY K s1 (e :: rest) <= RATE * (c_now s2 - ev_time e) + CAPACITY + npend s1 * MAXF + (K - 1) * MAXF.
+Proof. intros K pre e rest t0 s1 s2 HK. exact (window_concurrent_from RATE CAPACITY K MAXF (proj1 k_side) (proj1 (proj2 k_side)) (proj2 (proj2 k_side)) HK pre e rest t0 s1 s2). Qed.
+
+(* the floor is reached (K = 3): drain the bucket to exactly one frame, then three callers arrive together, each sees enough, all write *)
+Definition drain_evs : list cev :=
+  flat_map (fun i => [CArr i 0 (frame_size 96); CWr i 0]) (map Z.of_nat (seq 0 16)) ++ [CArr 16 0 (frame_size 78); CWr 16 0] ++
+  [CArr 20 0 MAXF; CArr 21 0 MAXF; CArr 22 0 MAXF; CWr 20 0; CWr 22 0; CWr 21 0].
+Theorem C11_concurrent_floor_is_reached :
+  Forall (small MAXF) drain_evs /\
+  option_map (vlevel RATE) (crun RATE CAPACITY 3 (cinit CAPACITY 0) drain_evs) = Some (- ((3 - 1) * MAXF)).
+Proof. split; [repeat constructor; vm_compute; discriminate | vm_compute; reflexivity]. Qed.
 
 (* the allowance is the one the property states: 1% of the radio's 38 400 bit/s, a bucket worth 60 s of it *)
 Theorem C11_allowance_as_stated : RATE * 100 <= 38400 /\ 0 < RATE /\ CAPACITY = RATE * 60 * TICKS_PER_S.
